@@ -147,51 +147,51 @@ def walk_rep(t):
     if len(entry) != 1:
         return None
     info = {"range": loop_range(rng), "entry": entry[0], "lid": lid, "skip": None, "min": None}
+    brk = ("leaf", "BREAK", lid, (("cur", ("loop", lid, 0)),))
+
+    def unit(n, cur_sym):
+        """MATCH(T) on cur_sym ; ok -> CONTINUE(out) ; fail -> [LT(i, MIN) ? RET_FAIL :] BREAK(c)"""
+        if not (n[0] == "fork" and n[2][0] == "MATCH") or n[2][2] != cur_sym:
+            return None
+        u = {"child": n[2][1][0], "child_event": n[1], "child_tracker": n[2][1][-1] if len(n[2][1]) > 1 else None}
+        ok, fail = n[3], n[4]
+        if not (ok[0] == "leaf" and ok[1] == "CONTINUE" and ok[2] == lid and ok[3] == (("cur", ("out", n[1])),)):
+            return None
+        if fail == brk:
+            u["min"] = None
+        elif fail[0] == "opq" and fail[1][0] == "lt" and fail[1][1] == ("idx", lid):
+            arms = dict(fail[2])
+            if arms.get("true") != RET_FAIL or arms.get("false") != brk:
+                return None
+            u["min"] = fail[1][2]
+        else:
+            return None
+        return u
     n = body
     cur_sym = ("loop", lid, 0)
-    # optional skip loop with guard
-    if n[0] == "loop":
-        ilid, irng, ientry, ibody, iafter = n[1], n[2], n[3], n[4], n[5]
-        r = loop_range(irng)
-        if r[0] != "range" or r[1] != ("lit", "0") or len(ientry) != 1 or ientry[0] != ("cur", cur_sym):
-            return None
-        # body: opq(zero(i_outer)) true -> CONTINUE(identity), false -> NFMATCH ; CONTINUE(out)
-        if ibody[0] != "opq" or ibody[1] != ("zero", ("idx", lid)):
-            return None
-        arms = dict(ibody[2])
+    if n[0] == "opq" and n[1] == ("zero", ("idx", lid)):
+        # canonical (unswitched) form of the guarded skip: first iteration without skip, later ones after the skip loop
+        arms = dict(n[2])
         tr, fa = arms.get("true"), arms.get("false")
         if tr is None or fa is None:
             return None
-        if not (tr[0] == "leaf" and tr[1] == "CONTINUE" and tr[2] == ilid and tr[3] == (("cur", ("loop", ilid, 0)),)):
+        sk = is_skip_loop(fa)
+        if sk is None or sk["entry"] != ("cur", cur_sym):
             return None
-        if not (fa[0] == "ev" and fa[2][0] == "NFMATCH" and fa[2][2] == ("loop", ilid, 0)):
+        u1 = unit(tr, cur_sym)
+        u2 = unit(fa[5], ("exit", sk["lid"], 0))
+        if u1 is None or u2 is None:
             return None
-        nx = fa[3]
-        if not (nx[0] == "leaf" and nx[1] == "CONTINUE" and nx[2] == ilid and nx[3] == (("cur", ("out", fa[1])),)):
+        if {k: v for k, v in u1.items() if k != "child_event"} != {k: v for k, v in u2.items() if k != "child_event"}:
             return None
-        info["skip"] = {"K": r[2], "S": fa[2][1][0], "lid": ilid, "event": fa[1]}
-        cur_sym = ("exit", ilid, 0)
-        n = iafter
-    if not (n[0] == "fork" and n[2][0] == "MATCH"):
-        return None
-    if n[2][2] != cur_sym:
-        return None
-    info["child"] = n[2][1][0]
-    info["child_event"] = n[1]
-    info["child_tracker"] = n[2][1][-1] if len(n[2][1]) > 1 else None
-    ok, fail = n[3], n[4]
-    if not (ok[0] == "leaf" and ok[1] == "CONTINUE" and ok[2] == lid and ok[3] == (("cur", ("out", n[1])),)):
-        return None
-    brk = ("leaf", "BREAK", lid, (("cur", ("loop", lid, 0)),))
-    if fail == brk:
-        info["min"] = None
-    elif fail[0] == "opq" and fail[1][0] == "lt" and fail[1][1] == ("idx", lid):
-        arms = dict(fail[2])
-        if arms.get("true") != RET_FAIL or arms.get("false") != brk:
-            return None
-        info["min"] = fail[1][2]
+        info["skip"] = {"K": sk["K"], "S": sk["S"], "lid": sk["lid"], "event": sk["event"]}
+        info.update(u2)
+        info["child_event_first"] = u1["child_event"]
     else:
-        return None
+        u = unit(n, cur_sym)
+        if u is None:
+            return None
+        info.update(u)
     if not (after[0] == "leaf" and after[1] in ("RET_OK", "RET") and ret_sym(after) == ("exit", lid, 0)):
         return None
     info["never_fails"] = (after[1] == "RET")
